@@ -52,6 +52,10 @@ def saveMapArgs (ext : Ext) (lower : Bool) (alias : Str) (m : List (Str × Str))
     | (k, some v) => saveMapArgs ext lower alias (insertKV (if lower then ext.toLower k else k) v m) r
     | (_, none) => .error (.notKeyValue alias)
 
+/-- the `ValidValues` gate of `Save`: no list declared, or every argument is on it -/
+def validGate (o : Opt) (args : List Str) : Bool :=
+  o.validValues.isEmpty || args.all fun a => o.validValues.contains a
+
 /-- `opt.Save(args...)`; `lower` is the `MapKeysToLower` flag copied from the root at match time. -/
 def save (ext : Ext) (lower : Bool) (o : Opt) (args : List Str) : Except PErr Opt :=
   match args with
@@ -61,7 +65,7 @@ def save (ext : Ext) (lower : Bool) (o : Opt) (args : List Str) : Except PErr Op
     | .incr, .i v => .ok { o with value := .i (wrap64 (v + 1)) }
     | _, _ => .ok o
   | a0 :: _ =>
-    if !o.validValues.isEmpty && !(args.all fun a => o.validValues.contains a) then
+    if !validGate o args then
       .error (.wrongValue o.name o.validValues)
     else
       match o.kind, o.value with
